@@ -266,6 +266,9 @@ func (o *OvsdbServer) Monitor(client *rpc2.Client, args []json.RawMessage, reply
 
 	tableUpdates := make(ovsdb.TableUpdates)
 	for t, request := range request {
+		if request == nil {
+			return fmt.Errorf("monitor request for table %s is null", t)
+		}
 		op := ovsdb.Operation{Op: ovsdb.OperationSelect, Table: t, Columns: request.Columns}
 		result, _ := transaction.Transact(op)
 		if len(result) == 0 || len(result[0].Rows) == 0 {
@@ -319,6 +322,9 @@ func (o *OvsdbServer) MonitorCond(client *rpc2.Client, args []json.RawMessage, r
 
 	tableUpdates := make(ovsdb.TableUpdates2)
 	for t, request := range request {
+		if request == nil {
+			return fmt.Errorf("monitor request for table %s is null", t)
+		}
 		op := ovsdb.Operation{Op: ovsdb.OperationSelect, Table: t, Columns: request.Columns}
 		result, _ := transaction.Transact(op)
 		if len(result) == 0 || len(result[0].Rows) == 0 {
@@ -372,6 +378,9 @@ func (o *OvsdbServer) MonitorCondSince(client *rpc2.Client, args []json.RawMessa
 
 	tableUpdates := make(ovsdb.TableUpdates2)
 	for t, request := range request {
+		if request == nil {
+			return fmt.Errorf("monitor request for table %s is null", t)
+		}
 		op := ovsdb.Operation{Op: ovsdb.OperationSelect, Table: t, Columns: request.Columns}
 		result, _ := transaction.Transact(op)
 		if len(result) == 0 || len(result[0].Rows) == 0 {
